@@ -227,17 +227,19 @@ func c10R3(r *Run, li *c10LaxInfo) {
 	for _, s := range res.OnlyFork {
 		report(s, "fork", r.P.Pos(s.Pos))
 	}
-	for _, k := range res.Compared {
-		d := diffs[k]
-		if d == nil {
-			r.Pass("sites:"+k, "-", "strict residual of "+k+" has the same rejection sites, error-propagating calls and returns under the same conditions as encoding/asn1 (modulo the drift table)")
-			continue
+	emitSites := func() {
+		for _, k := range res.Compared {
+			d := diffs[k]
+			if d == nil {
+				r.Pass("sites:"+k, "-", "strict residual of "+k+" has the same rejection sites, error-propagating calls and returns under the same conditions as encoding/asn1 (modulo the drift table)")
+				continue
+			}
+			n := len(d.items)
+			if n > 4 {
+				d.items = append(d.items[:4], fmt.Sprintf("… and %d more", n-4))
+			}
+			r.Fail("sites:"+k, d.where, fmt.Sprintf("the strict residual of the fork's %s and encoding/asn1 differ in %d site(s) that the drift table does not list: %s", k, n, strings.Join(d.items, " || ")))
 		}
-		n := len(d.items)
-		if n > 4 {
-			d.items = append(d.items[:4], fmt.Sprintf("… and %d more", n-4))
-		}
-		r.Fail("sites:"+k, d.where, fmt.Sprintf("the strict residual of the fork's %s and encoding/asn1 differ in %d site(s) that the drift table does not list: %s", k, n, strings.Join(d.items, " || ")))
 	}
 	r.Floor("sites identical after normalisation", res.Matched, 200)
 	// the drift entries in use are part of the evidence
@@ -261,7 +263,20 @@ func c10R3(r *Run, li *c10LaxInfo) {
 	r.Pass("summary", "-", fmt.Sprintf("%d functions; %d sites identical, %d identical after drift rewrites, %d covered by drift allowances", res.Functions, res.Matched, matchedAfter, allowed))
 	// the type variables the fork dispatches on are what the rewrites claim
 	c10TypeVars(r, res.Renamed)
-	c10R3Items(r, res, up.Fset)
+	lone, emitItems := c10R3Items(r, res, up.Fset)
+	// findings of the walk stated in their own words (rules_t8c10.go): a guard that only one side
+	// has (its condition found no partner) and that is decided to change the outcome
+	for _, n := range res.Notes {
+		where, side := up.Fset.Position(n.Pos).String(), "upstream"
+		if n.Fork {
+			where, side = r.P.Pos(n.Pos), "fork"
+		}
+		if lone[side][n.Pos] {
+			r.Fail(n.Kind+":"+n.Fn, where, n.Text)
+		}
+	}
+	emitSites()
+	emitItems()
 	if os.Getenv("CTVERIF_C10_DEBUG") != "" {
 		fmt.Println("outside:", res.FuncsOutside, "not outside:", res.NotOutside, "sink statements:", res.SinkStmts)
 		for _, v := range res.PkgVars {
@@ -393,7 +408,8 @@ var c10ItemAllows = []c10ItemAllow{
 	{"four-digits", "appendFourDigits", "fork", `asgn P1 = (P1 / 10)`, "", 1, "equivalent", "same"},
 }
 
-func c10R3Items(r *Run, res *fdResult, upFset *token.FileSet) {
+func c10R3Items(r *Run, res *fdResult, upFset *token.FileSet) (map[string]map[token.Pos]bool, func()) {
+	lone := map[string]map[token.Pos]bool{"fork": {}, "upstream": {}}
 	used := map[string]int{}
 	names := map[string][2]string{}
 	override := map[string]bool{} // item rewrites replace the site rewrite of the same name (canonical orientation)
@@ -446,6 +462,7 @@ func c10R3Items(r *Run, res *fdResult, upFset *token.FileSet) {
 				return
 			}
 		}
+		lone[side][s.Pos] = true
 		k := "conditions:" + s.Fn
 		if strings.HasPrefix(s.Text, "asgn ") {
 			k = "assignments:" + s.Fn
@@ -473,35 +490,38 @@ func c10R3Items(r *Run, res *fdResult, upFset *token.FileSet) {
 	for _, s := range res.ItemsOnlyFork {
 		report(s, "fork", r.P.Pos(s.Pos))
 	}
-	for _, fn := range res.Compared {
-		for _, kind := range [][2]string{{"decisions", "decision tables (runs of equality tests and copies over integer variables, compared with encoding/asn1 as the functions they compute: strict mode must accept what encoding/asn1 accepts, with an equal value)"},
-			{"conditions", "branch conditions (if / for / range / switch clauses)"}, {"assignments", "assignments to named results and to variables that flow into returned values"}} {
-			d := diffs[kind[0]+":"+fn]
-			if d == nil && kind[0] == "decisions" {
-				if n, ok := res.Tables[fn]; ok {
-					r.Pass(kind[0]+":"+fn, "-", fmt.Sprintf("%d run(s) of equality tests and copies over integer variables in the strict residual of %s compute the same function as their counterpart in encoding/asn1 (decided on every abstract input)", n[0], fn))
+	emit := func() {
+		for _, fn := range res.Compared {
+			for _, kind := range [][2]string{{"decisions", "decision tables (runs of equality tests and copies over integer variables, compared with encoding/asn1 as the functions they compute: strict mode must accept what encoding/asn1 accepts, with an equal value)"},
+				{"conditions", "branch conditions (if / for / range / switch clauses)"}, {"assignments", "assignments to named results and to variables that flow into returned values"}} {
+				d := diffs[kind[0]+":"+fn]
+				if d == nil && kind[0] == "decisions" {
+					if n, ok := res.Tables[fn]; ok {
+						r.Pass(kind[0]+":"+fn, "-", fmt.Sprintf("%d run(s) of equality tests and copies over integer variables in the strict residual of %s compute the same function as their counterpart in encoding/asn1 (decided on every abstract input)", n[0], fn))
+					}
+					continue
 				}
-				continue
+				if d == nil {
+					r.Pass(kind[0]+":"+fn, "-", "the strict residual of "+fn+" has the same multiset of "+kind[1]+" as encoding/asn1 (modulo the drift table)")
+					continue
+				}
+				n := len(d.items)
+				if n > 4 {
+					d.items = append(d.items[:4], fmt.Sprintf("… and %d more", n-4))
+				}
+				r.Fail(kind[0]+":"+fn, d.where, fmt.Sprintf("the %s of the fork's %s (strict residual) and of encoding/asn1 differ in %d item(s) that the drift table does not list: %s", kind[1], fn, n, strings.Join(d.items, " || ")))
 			}
-			if d == nil {
-				r.Pass(kind[0]+":"+fn, "-", "the strict residual of "+fn+" has the same multiset of "+kind[1]+" as encoding/asn1 (modulo the drift table)")
-				continue
-			}
-			n := len(d.items)
-			if n > 4 {
-				d.items = append(d.items[:4], fmt.Sprintf("… and %d more", n-4))
-			}
-			r.Fail(kind[0]+":"+fn, d.where, fmt.Sprintf("the %s of the fork's %s (strict residual) and of encoding/asn1 differ in %d item(s) that the drift table does not list: %s", kind[1], fn, n, strings.Join(d.items, " || ")))
 		}
+		r.Floor("conditions and assignments identical after normalisation", res.ItemsMatched, 400)
+		var ks []string
+		for k := range used {
+			ks = append(ks, k)
+		}
+		sort.Strings(ks)
+		for _, k := range ks {
+			r.Pass("drift-items:"+k, "-", fmt.Sprintf("documented difference [%s] used for %d condition/assignment item(s): %s", names[k][0], used[k], names[k][1]))
+		}
+		r.Pass("summary-items", "-", fmt.Sprintf("%d conditions/assignments identical, %d identical after drift rewrites, %d covered by counted drift allowances", res.ItemsMatched, after, allowed))
 	}
-	r.Floor("conditions and assignments identical after normalisation", res.ItemsMatched, 400)
-	var ks []string
-	for k := range used {
-		ks = append(ks, k)
-	}
-	sort.Strings(ks)
-	for _, k := range ks {
-		r.Pass("drift-items:"+k, "-", fmt.Sprintf("documented difference [%s] used for %d condition/assignment item(s): %s", names[k][0], used[k], names[k][1]))
-	}
-	r.Pass("summary-items", "-", fmt.Sprintf("%d conditions/assignments identical, %d identical after drift rewrites, %d covered by counted drift allowances", res.ItemsMatched, after, allowed))
+	return lone, emit
 }
